@@ -330,6 +330,12 @@ func (e *C16) scenario(ctx *core.Ctx) {
 		}
 		spec.Strategy.Canary = c
 	}
+	e.runScenario(ctx, spec)
+}
+
+// runScenario stores spec in a 3-node cluster and drives it through the life cycle.
+func (e *C16) runScenario(ctx *core.Ctx, spec *v1.ExtendedDaemonSetSpec) {
+	r := ctx.Rand
 	ctx.Count("C16.scenarios")
 	if ctx.Distinct("nontrivial", fmt.Sprint(specDesc(spec))) && r.Intn(40) == 0 {
 		ctx.Sample(specDesc(spec))
